@@ -162,6 +162,8 @@ func mkRunnable(r *recorder, s svc, dn string) Runnable {
 			return fmt.Errorf("rpc failed: %w", context.Canceled)
 		case "panic":
 			panic("boom")
+		case "panic-in-signal": // a lifecycle violation: the supervisor itself panics inside Signal (healthy signalled twice)
+			Signal(ctx, SignalHealthy)
 		}
 		return errors.New("unknown behaviour")
 	}
@@ -263,8 +265,11 @@ func runC18(c c18Case) (*vh.Violation, vh.Outcome) {
 	if stillRunning && !starved {
 		return vh.V("C18/not-stopped-by-cancel", "services still running 3 s after the supervisor's context was cancelled"), out
 	}
+	// A start that the supervisor decided on just before the cancel shows up a scheduling latency later (the goroutine
+	// has to get going before it can record itself): allow what the lateness watchdog measured, not more.
+	startSlack := 500*time.Microsecond + 3*time.Duration(atomic.LoadInt64(&maxLate))
 	for _, e := range events {
-		if e.kind == "enter" && e.t > tQuiet {
+		if e.kind == "enter" && e.t > tQuiet+startSlack {
 			return vh.V("C18/start-after-cancel", "%s started at %v, after every service had stopped following the cancel at %v", e.dn, e.t, tCancel), out
 		}
 	}
@@ -385,7 +390,7 @@ func genSvc(t *rapid.T, name string, depth int, leafOnly bool) svc {
 	s := svc{Name: name}
 	nb := rapid.IntRange(1, 3).Draw(t, "nbeh")
 	for i := 0; i < nb; i++ {
-		k := rapid.SampledFrom([]string{"run", "run", "run", "error", "nil", "panic", "wrapped-canceled", "done", "done-slow"}).Draw(t, "kind")
+		k := rapid.SampledFrom([]string{"run", "run", "run", "error", "nil", "panic", "wrapped-canceled", "done", "done-slow", "panic-in-signal"}).Draw(t, "kind")
 		s.Beh = append(s.Beh, behavior{Kind: k, Delay: rapid.IntRange(0, 40).Draw(t, "delay"), Lat: rapid.IntRange(0, 20).Draw(t, "lat")})
 	}
 	if depth < 2 && !leafOnly {
